@@ -7,10 +7,10 @@ package main
 
 import (
 	"fmt"
-	"os"
-	"runtime/debug"
 	"go/token"
 	"go/types"
+	"os"
+	"runtime/debug"
 	"sort"
 	"strings"
 
@@ -24,7 +24,7 @@ const (
 
 type effViolation struct {
 	key, pos, what string
-	p             token.Pos
+	p              token.Pos
 }
 
 type effect struct {
